@@ -101,10 +101,10 @@ struct Model {
     std::vector<ActionM> actions;
     std::vector<StepM> steps;
     std::string startDate = "1 'JAN' 2020";
-    bool hasNetwork = false, hasLiftOpt = false, hasVfp = false, hasGuiderat = false;
+    bool hasNetwork = false, hasLiftOpt = false, hasVfp = false, hasGuiderat = false, hasBccon = false;
     std::vector<int> vfpIds;
     std::string summarySection;     // extra SUMMARY keywords
-    std::string runspecExtra, solutionExtra;   // optional phases / options / report requests (Opts::exoticRunspec)
+    std::string runspecExtra, solutionExtra, gridExtra;   // optional phases / options / report requests (Opts::exoticRunspec)
     std::string staticPart() const;
     std::string scheduleText(size_t nsteps = (size_t)-1) const;
     std::string text() const { return staticPart() + "SCHEDULE\n" + scheduleText(); }
@@ -123,6 +123,7 @@ inline std::string Model::staticPart() const {
     s << "UNIFOUT\nUNIFIN\nGRID\nINIT\n";
     s << "DX\n " << n << "*100 /\nDY\n " << n << "*100 /\nDZ\n " << n << "*10 /\nTOPS\n " << nx * ny << "*2000 /\n";
     s << "PERMX\n " << n << "*100 /\nPERMY\n " << n << "*100 /\nPERMZ\n " << n << "*10 /\nPORO\n " << n << "*0.25 /\n";
+    s << gridExtra;
     if (!actnum.empty()) { s << "ACTNUM\n"; for (size_t q = 0; q < actnum.size(); ++q) s << " " << actnum[q] << ((q + 1) % 40 == 0 ? "\n" : ""); s << " /\n"; }
     s << "PROPS\nDENSITY\n 860 1033 0.85 /\nPVTW\n 277 1.03 4.0E-5 0.3 0 /\nROCK\n 277 4.8E-5 /\n";
     s << "SWOF\n 0.2 0 1 0\n 0.5 0.2 0.3 0\n 1.0 1.0 0 0 /\nSGOF\n 0 0 1 0\n 0.4 0.3 0.2 0\n 0.8 1 0 0 /\n";
@@ -162,6 +163,8 @@ public:
                                        "NOSIM\n", "FMTOUT\n", "FMTIN\n", "NONNC\n", "GRIDOPTS\n 'YES' /\n", "TRACERS\n 1 1 1 /\n", "SATOPTS\n 'DIRECT' /\n", "MSGFILE\n 1 /\n"};
             for (const char* k : RS) if (rng.chance(0.2)) { if (std::string(k).rfind("ENDSCALE", 0) == 0 && m.runspecExtra.find("ENDSCALE") != std::string::npos) continue; m.runspecExtra += k; }
             static const char* FIP[] = {"FIP=1", "FIP=2", "FIP=3", "FIPFOAM=2", "FIPPLY=2", "FIPRESV", "FIPSOL=2", "FIPTEMP=2", "FIPSURF=2", "FIPTR=2", "FIPVE", "RESTART=2", "PRES", "SOIL", "SWAT"};
+            // boundary condition faces (BCCON) for the SCHEDULE keyword BCPROP
+            if (rng.chance(0.4)) { m.gridExtra = "BCCON\n 1 1 1 1 " + std::to_string(m.ny) + " 1 " + std::to_string(m.nz) + " 'X-' /\n 2 " + std::to_string(m.nx) + " " + std::to_string(m.nx) + " 1 " + std::to_string(m.ny) + " 1 " + std::to_string(m.nz) + " 'X' /\n/\n"; m.hasBccon = true; }
             if (rng.chance(0.6)) { m.solutionExtra += "RPTSOL\n"; for (const char* f : FIP) if (rng.chance(0.3)) m.solutionExtra += std::string(" ") + f; m.solutionExtra += " /\n"; }
         }
         int nsteps = opt.minSteps + (int)rng.below(opt.maxSteps - opt.minSteps + 1);
@@ -397,7 +400,7 @@ private:
 
     // ------------------------------------------------------------------------------------------------
     void randomKeyword(StepM& st) {
-        int pick = (int)rng.below(71);
+        int pick = (int)rng.below(72);
         WellM* w = anyWell();
         std::ostringstream s;
         switch (pick) {
@@ -487,6 +490,9 @@ private:
         case 67: { WellM* i = anyInjector(); if (!i) return; s << "WTEMP\n " << q(i->name) << " " << fmtd(20 + rng.below(60)) << " /\n/\n"; add(st, "WTEMP", s.str()); return; }
         case 68: { s << "DRSDTR\n " << fmtd(0.001 * (1 + rng.below(10))) << " '" << (rng.chance(0.5) ? "ALL" : "FREE") << "' /\n"; add(st, "DRSDTR", s.str()); return; }
         case 69: { if (!w) return; s << "WECON\n " << q(wellOrPattern()) << " " << fmtd(rng.below(10)) << " " << fmtd(rng.below(1000)) << " " << frac() << " " << fmtd(100 + rng.below(900)) << " 1* '" << (rng.chance(0.5) ? "CON" : "+CON") << "' '" << (rng.chance(0.5) ? "YES" : "NO") << "' /\n/\n"; add(st, "WECON", s.str()); return; }
+        case 71: { if (!M->hasBccon) return;
+            s << "BCPROP\n " << 1 + rng.below(2) << " '" << (rng.chance(0.5) ? "RATE" : "FREE") << "' '" << (rng.chance(0.5) ? "WATER" : "GAS") << "' " << fmtd(rng.below(200)) << " /\n/\n";
+            add(st, "BCPROP", s.str()); return; }
         case 70: { // WELSEGS entered again for a well that already has segments (same topology, one segment re-dimensioned)
             std::vector<WellM*> v; for (auto& x : M->wells) if (x.msw) v.push_back(&x); if (v.empty()) return;
             WellM& m = *v[rng.below(v.size())];
